@@ -428,3 +428,66 @@ def run_param_subscripts(prog, rep, files=('src/util/dataAccess.cpp', 'src/Dimen
 
 def _sk(f):
     return '(' + ','.join(p['type'].replace('const ', '').replace('nix::', '').replace(' &', '').replace('std::', '')[:18] for p in f.params) + ')'
+
+
+def run_indata(prog, rep):
+    """the bounds predicate every view relies on: (offset, count) is inside the data iff rank agrees and offset[i]+count[i]-1 < extent[i] for ALL i"""
+    rule = rep.rule('R-INDATA', 'positionAndExtentInData(data, offset, count) holds iff ranks agree and offset+count-1 < extent in every dimension', floor=2)
+    sem = Sem(prog)
+    f = prog.fn('nix::util::positionInData')
+    lv = {v.get('name'): v for v in sem.local_vars(f).values()}
+    dn, pn = f.params[0]['name'], f.params[1]['name']
+    probs = []
+    ext = [v for v in lv.values() if v.c and v.c[0] is not None and term(unwrap(v.c[0]))[:2] == ('m', 'dataExtent') and term(unwrap(v.c[0]))[2][2] == dn]
+    if not ext:
+        probs.append('the extent compared with is not data.dataExtent()')
+    else:
+        E = ('v', ext[0].get('lid'), ext[0].get('name'))
+        P = ('v', f.params[1]['lid'], pn)
+        loops = [n for n in f.walk() if n.k == 'for']
+        if len(loops) != 1:
+            probs.append('expected one loop over the dimensions')
+        else:
+            lp = loops[0]
+            iv = [v for v in lp.c[0].walk() if v.k == 'var'] if lp.c[0] is not None else []
+            I = ('v', iv[0].get('lid'), iv[0].get('name')) if iv else None
+            cond = term(unwrap(lp.c[1])) if lp.c[1] is not None else None
+            if not iv or term(unwrap(iv[0].c[0])) != ('k', 0) or not (cond and cond[0] == 'b' and cond[1] == '<' and cond[2] == I and cond[3] in (('m', 'size', E), ('m', 'size', P))):
+                probs.append('the loop does not visit every dimension 0..rank-1')
+            want = ('b', '<', ('op', '[]', P, I), ('op', '[]', E, I))
+            acc = [n for n in lp.walk() if n.k == 'assign' and n.get('op') == '&=' and term(unwrap(n.c[1])) == want]
+            early = [i for i in lp.walk() if i.k == 'if' and i.c[3] is not None and any(r.k == 'return' and r.c and term(unwrap(r.c[0])) == ('k', False) for r in i.c[3].walk())
+                     and term(unwrap(i.c[2])) in (('b', '>=', want[2], want[3]), ('u', '!', want), ('b', '<=', want[3], want[2]))]
+            if not acc and not early:
+                other = [n.src(60) for n in lp.walk() if n.k == 'assign']
+                probs.append('a dimension with position[i] >= extent[i] does not make the result false for good (%s)' % (other[:1] or 'no accumulation'))
+            if acc:
+                V = term(unwrap(acc[0].c[0]))
+                vv = sem.local_vars(f).get(V[1]) if V[0] == 'v' else None
+                rets = [r for r in f.walk() if r.k == 'return' and r.id > lp.id]
+                if vv is None or term(unwrap(vv.c[0])) != ('k', True) or not rets or term(unwrap(rets[-1].c[0])) != V:
+                    probs.append('the accumulated verdict is not initialised true and returned')
+        facts_rank = [i for i in f.walk() if i.k == 'if' and 'size' in i.c[2].src(60) and any(r.k == 'return' and term(unwrap(r.c[0])) == ('k', False) for r in (i.c[3].walk() if i.c[3] is not None else []))]
+        if not facts_rank:
+            probs.append('a rank mismatch does not give false')
+    rule.check(not probs, 'positionInData', rep.where(f), f.label(), 'false on rank mismatch; true iff position[i] < extent[i] for all i', '; '.join(probs))
+    g = prog.fn('nix::util::positionAndExtentInData')
+    probs = []
+    gp = [p['name'] for p in g.params]
+    lvg = list(sem.local_vars(g).values())
+    sums = [v for v in lvg if v.c and v.c[0] is not None and term(unwrap(v.c[0]))[:2] == ('op', '+') and set(x[2] for x in term(unwrap(v.c[0]))[2:4] if x[0] == 'v') == {gp[1], gp[2]}]
+    if not sums:
+        probs.append('the last element is not computed from position + count')
+    else:
+        S = ('v', sums[0].get('lid'), sums[0].get('name'))
+        dec = [c for c in g.walk() if c.k == 'call' and c.get('op') == '-=' and term(c) == ('op', '-=', S, ('k', 1))]
+        rets = [r for r in g.walk() if r.k == 'return']
+        call = [c for c in g.calls(name='positionInData')]
+        if not dec:
+            probs.append('position + count is not reduced by one (the last element of the block is position + count - 1)')
+        if not call or [term(unwrap(a)) for a in real_args(call[0])] != [('v', g.params[0]['lid'], gp[0]), S] or (dec and not dec[0].id < call[0].id):
+            probs.append('the last element is not tested with positionInData(data, position + count - 1)')
+        if not rets or not call or not any(x is call[0] for x in rets[-1].walk()):
+            probs.append('the verdict of positionInData is not what is returned')
+    rule.check(not probs, 'positionAndExtentInData', rep.where(g), g.label(), 'positionInData(data, position + count - 1)', '; '.join(probs))
+    return rule
